@@ -234,6 +234,41 @@ Proof.
   rewrite Hf2 in He. lia.
 Qed.
 
+(* The processing delay travels in g52v2, an unsigned 16-bit count of milliseconds
+   (OutstationApplication::get_processing_delay_ms returns u16).  An outstation that really holds its
+   answer longer than 65535 ms cannot report it; with the saturated report the error grows by half of
+   the unreported part, whatever the line looks like: *)
+Theorem nonlan_saturated_error : forall P hold back w tw,
+  tsp_b1 P = hold + back -> tsp_rep P = 65535 -> 65535 <= hold ->
+  plain_sync TsNonLan P = TsSuccess w tw ->
+  (tsp_c0 P + tw) - w = tsp_f2 P - (tsp_f1 P + back + (hold - 65535)) / 2.
+Proof.
+  intros P hold back w tw Hb Hrep Hh H.
+  destruct (nonlan_exact P w tw H) as [Htw [_ [Hw _]]].
+  rewrite Hb, Hrep in Hw.
+  replace (tsp_f1 P + (hold + back) - 65535) with (tsp_f1 P + back + (hold - 65535)) in Hw by lia.
+  lia.
+Qed.
+
+(* ... so the bound of nonlan_error, read with "the delay the outstation reports as well as the
+   protocol lets it" in place of "rep = hold", is FALSE for processing delays beyond 65535 ms:
+   symmetric line of 10 ms each way, answer held 70000 ms, report 65535 ms, success, and the written
+   time is 2232 ms ahead of the master's clock (bound for a symmetric line: 0).  Witness replayed on
+   the implementation: corpus/C18/nonlan_processing_beyond_u16.txt.  This is a limit of the object
+   format, not a defect of the arithmetic; C18's hypothesis "honestly reports" excludes it. *)
+Lemma nonlan_beyond_u16_refuted :
+  exists P hold back w tw,
+    tsp_b1 P = hold + back /\ tsp_rep P = Z.min hold 65535 /\ tsp_f2 P = tsp_f1 P /\
+    0 <= tsp_f1 P /\ 0 <= back /\
+    plain_sync TsNonLan P = TsSuccess w tw /\
+    Z.abs (w - (tsp_c0 P + tw)) > (Z.abs (back - tsp_f1 P) + 1) / 2.
+Proof.
+  exists {| tsp_c0 := 1000000; tsp_on := true; tsp_t0 := 0; tsp_f1 := 10; tsp_b1 := 70010; tsp_f2 := 10;
+            tsp_b2 := 70010; tsp_tmo := 400003; tsp_rep := 65535; tsp_mode := TsNAuto; tsp_need0 := true;
+            tsp_rec0 := None |}, 70000, 10, 1072262, 70030.
+  vm_compute. repeat split; try reflexivity; discriminate.
+Qed.
+
 (* ------------------------------------------------------------------------------------------ *)
 (* a synchronisation that must fail is never reported successful                               *)
 
@@ -395,3 +430,118 @@ Lemma engine_agrees_with_closed_form_on_grid :
     [TsLan; TsNonLan; TsDirect]
   = true.
 Proof. vm_compute. reflexivity. Qed.
+
+(* ------------------------------------------------------------------------------------------ *)
+(* bytes: what one task encodes the other decodes                                              *)
+
+Lemma de48_le48 v : 0 <= v <= ts_max ->
+  match le48 v with
+  | [b0; b1; b2; b3; b4; b5] => de48 b0 b1 b2 b3 b4 b5 = v
+  | _ => False
+  end.
+Proof.
+  intro Hv. unfold le48, ts_le_bytes, de48, ts_max in *.
+  rewrite !Z2N.id by (apply Z.mod_pos_bound; lia).
+  lia.
+Qed.
+
+Lemma parse_enc_req seq r :
+  (seq < 16)%N ->
+  match r with TsRWriteAbs ts | TsRWriteLast ts => 0 <= ts <= ts_max | _ => True end ->
+  ts_parse_req (ts_enc_req seq r) = TsQReq r.
+Proof.
+  intros Hs Hr. destruct r as [| |ts|ts]; try reflexivity.
+  - pose proof (de48_le48 ts Hr) as H. unfold ts_enc_req. unfold le48, ts_le_bytes in *.
+    cbn [app ts_parse_req]. rewrite H. reflexivity.
+  - pose proof (de48_le48 ts Hr) as H. unfold ts_enc_req. unfold le48, ts_le_bytes in *.
+    cbn [app ts_parse_req]. rewrite H. reflexivity.
+Qed.
+
+Lemma classify_delay_objs d : 0 <= d <= 65535 -> ts_classify_objs (ts_delay_objs d) = TsODelay d.
+Proof.
+  intro Hd. unfold ts_delay_objs, ts_classify_objs.
+  rewrite !Z2N.id by (apply Z.mod_pos_bound; lia). f_equal. lia.
+Qed.
+
+(* ------------------------------------------------------------------------------------------ *)
+(* the simulated tasks apply exactly the blocks of the closed form to what they decode          *)
+
+Lemma seq_cases (seq : N) : (seq < 16)%N ->
+  In seq [0; 1; 2; 3; 4; 5; 6; 7; 8; 9; 10; 11; 12; 13; 14; 15]%N.
+Proof.
+  intro H. cbn [In].
+  destruct seq as [|p]; [auto|].
+  do 4 (destruct p as [p|p|]; try lia; auto 20).
+Qed.
+
+(* outstation: a request that is not a repetition of the previous one is handled by o_handle; the
+   application is handed the time o_handle computes, at the instant of arrival *)
+Lemma o_deliver_uses_o_handle cfg s seq r :
+  (seq < 16)%N ->
+  match r with TsRWriteAbs ts | TsRWriteLast ts => 0 <= ts <= ts_max | _ => True end ->
+  tos_last (tss_o s) = None ->
+  let res := o_handle (tsc_mode cfg) (tss_rep s) (tos_time (tss_o s)) (tss_now s) r in
+  exists s' rest,
+    o_deliver cfg s (ts_enc_req seq r) =
+      (s', match or_written res with Some v => TsWritten (tss_now s) v :: rest | None => rest end) /\
+    tos_time (tss_o s') = or_st res /\
+    (forall t v, ~ In (TsWritten t v) rest).
+Proof.
+  intros Hs Hr Hlast res.
+  unfold o_deliver. rewrite (parse_enc_req seq r Hs Hr). rewrite Hlast.
+  fold res.
+  destruct (ts_outstation_wrote
+              (ts_set_o s {| tos_time := or_st res;
+                             tos_last := Some {| ol_req := ts_enc_req seq r;
+                                                 ol_seq := match ts_enc_req seq r with c :: _ => (c mod 16)%N | [] => 0%N end;
+                                                 ol_iin1 := ts_need_bit (to_need (or_st res));
+                                                 ol_iin2 := Z.to_N (or_iin2 res);
+                                                 ol_objs := match or_delay res with Some d => ts_delay_objs d | None => [] end |} |})
+              (ts_enc_resp (match ts_enc_req seq r with c :: _ => (c mod 16)%N | [] => 0%N end)
+                           (ts_need_bit (to_need (or_st res))) (Z.to_N (or_iin2 res))
+                           (match or_delay res with Some d => ts_delay_objs d | None => [] end)))
+    as [s1 obs] eqn:Ew.
+  exists s1, obs. split; [reflexivity|]. split.
+  - unfold ts_outstation_wrote in Ew.
+    repeat match type of Ew with
+           | context [if ?x then _ else _] => destruct x
+           | context [match ?x with _ => _ end] => destruct x
+           end; inversion Ew; reflexivity.
+  - intros t v Hin. unfold ts_outstation_wrote in Ew.
+    repeat match type of Ew with
+           | context [if ?x then _ else _] => destruct x
+           | context [match ?x with _ => _ end] => destruct x
+           end; inversion Ew; subst; cbn [In] in Hin;
+      repeat match goal with H : _ \/ _ |- _ => destruct H as [H|H]; try discriminate end; auto.
+Qed.
+
+(* master: a well-formed response with the sequence number of the pending request, FIR|FIN, no IIN2
+   rejection, is handed to m_handle with the NEED_TIME bit and the classified objects; the task ends
+   with the error m_handle gives, completes, or sends its next request *)
+Lemma m_deliver_uses_m_handle cfg s t iin1 iin2 objs :
+  tm_cur (tss_m s) = Some t -> (mt_seq t < 16)%N ->
+  N.testbit iin1 7 = false -> N.land iin2 7 = 0%N ->
+  m_deliver cfg s (ts_enc_resp (mt_seq t) iin1 iin2 objs) =
+    match m_handle (mt_state t) (ts_clock (tss_on s) (tsc_c0 cfg) (tss_now s)) (tss_now s)
+                   (N.testbit iin1 4) (ts_classify_objs objs) with
+    | TsFail e => m_finish cfg s (mt_token t) (Some e)
+    | TsDone => m_finish cfg s (mt_token t) None
+    | TsNext st =>
+        let sq := tm_seq (tss_m s) in
+        ts_master_wrote
+          (ts_set_m s {| tm_seq := ts_seq_next sq;
+                         tm_cur := Some {| mt_token := mt_token t; mt_state := st; mt_seq := sq;
+                                           mt_deadline := tss_now s + tsc_tmo cfg |};
+                         tm_q := tm_q (tss_m s) |})
+          (ts_enc_req sq (ts_req_of st))
+    end.
+Proof.
+  intros Hcur Hseq Hr Hi2.
+  unfold m_deliver, ts_enc_resp. cbn [app].
+  rewrite Hr, Hcur.
+  pose proof (seq_cases (mt_seq t) Hseq) as Hc. cbn [In] in Hc.
+  repeat (destruct Hc as [Hc|Hc]; [rewrite <- Hc; cbn [N.add N.testbit N.modulo N.eqb negb andb orb];
+                                   vm_compute (N.eqb 129 130); vm_compute (N.eqb 129 129);
+                                   rewrite Hi2; reflexivity|]).
+  destruct Hc.
+Qed.
